@@ -19,6 +19,7 @@ def main():
     demo = os.path.join(sd, "demo_test.go")
     sh("git checkout -- . && git clean -fdq", wt)
     destp = os.path.join(wt, dest)
+    os.makedirs(os.path.dirname(destp), exist_ok=True)
     shutil.copyfile(demo, destp)
     rc0, out0 = sh("go test -vet=off -count=1 %s" % testargs, wt)
     print("demo on unchanged tree: exit", rc0)
